@@ -122,6 +122,21 @@ func checkC11(c *Case, st *Stats) string {
 				}
 			}
 			st.Class("accessor-mode-and-function-context")
+			// ... and with an aggregate function behind them, on an array of arrays: what the aggregate
+			// is handed follows from the selection (SPEC), also when exactly one element is selected
+			if wrapDepth == 0 {
+				rows := make([]interface{}, n)
+				for i := range rows {
+					rows[i] = []interface{}{float64(i), float64(i), float64(i)}
+				}
+				withAgg := &gen.Path{Root: c.AST.Root, Steps: append(append([]gen.Step(nil), c.AST.Steps...), gen.Step{Kind: gen.KFunc, Fn: "g1", Agg: true})}
+				wantAgg := spec.Eval(withAgg, interface{}(rows), gen.PureFuncs{})
+				gotAgg, errAgg := jsonpath.Retrieve(strings.TrimRight(c.Path, " ")+".g1()", interface{}(rows), BuildConfig(nil, true, false))
+				st.Eval(1)
+				if (len(wantAgg.Nodes) == 0) != (errAgg != nil) || (errAgg == nil && !reflect.DeepEqual(gotAgg, wantAgg.Values())) {
+					return fmt.Sprintf("length %d: followed by the aggregate .g1() on an array of %d three-element arrays: (%s, %v), SPEC %s", n, n, JSONString(gotAgg), errAgg, JSONString(wantAgg.Values()))
+				}
+			}
 		}
 		// non-triviality
 		nt := false
